@@ -154,7 +154,7 @@ def parse_fn_directive(header, body, default_file, unit_props, tline):
             d.hints.append({"where": kind, "text": m.group(2), "occ": int(m.group(1) or 0), "loop": 0, "hint": text})
         elif kind in ("fn_start", "fn_end"):
             d.hints.append({"where": kind, "text": "", "occ": 0, "loop": 0, "hint": text})
-        elif kind in ("loop_start", "loop_end"):
+        elif kind in ("loop_start", "loop_end", "before_call", "at_break"):
             d.hints.append({"where": kind, "text": "", "occ": 0, "loop": int(rest), "hint": text})
         elif kind == "panic":
             d.panic[rest or "*"] = text
@@ -433,9 +433,9 @@ class Unit:
             elif tag == "ANCHOR":
                 h = hints_by_id[arg]
                 out.extend(hint_lines(h["hint"], "%s %s" % (h["where"], h["text"] or h["loop"] or "")))
-            elif tag in ("ANCHORLS", "ANCHORLE"):
+            elif tag in ("ANCHORLS", "ANCHORLE", "ANCHORBC", "ANCHORBR"):
                 n = int(arg)
-                w = "loop_start" if tag == "ANCHORLS" else "loop_end"
+                w = {"ANCHORLS": "loop_start", "ANCHORLE": "loop_end", "ANCHORBC": "before_call", "ANCHORBR": "at_break"}[tag]
                 for h in d.hints:
                     if h["where"] == w and h["loop"] == n:
                         out.extend(hint_lines(h["hint"], "%s %d" % (w, n)))
